@@ -18,6 +18,10 @@
 (* time with the logged content (Save_Enter / Save_WriteC), and an update  *)
 (* of an empty file starts from the logged in-memory copy (UFS_ReadC).     *)
 (* Several traces are concatenated, separated by "reset" events.           *)
+(* Traces of crash experiments carry a "crash" event after the last event  *)
+(* of every process (TCrash); they are checked with StatusFileTraceCrash   *)
+(* .cfg, i.e. without NoTornRead / EmptyOnlyInside, which a kill between   *)
+(* truncate and write is known to break (finding C04:empty-status-...).    *)
 (***************************************************************************)
 EXTENDS StatusFile, Json, Sequences
 
@@ -82,7 +86,8 @@ TWrite  == /\ Has("write")
            /\ Consume
 
 TLoad   == /\ Has("load")
-           /\ IF E.ok THEN IsRec(file) /\ file = C(E) ELSE E.z /\ file = Absent
+           /\ IF E.ok THEN IsRec(file) /\ file = C(E)
+                       ELSE (E.z /\ file = Absent) \/ (~E.z /\ file = Empty)   \* (Empty: flagged by NoTornRead; legitimate only after a crash)
            /\ Load_Read(E.a)
            /\ Consume
 
@@ -91,7 +96,16 @@ TSaveWrite == Has("save_write") /\ Save_WriteC(E.a, C(E)) /\ Consume
 
 TUnlock == Has("unlock") /\ (UFS_Unlock(E.a) \/ Load_Unlock(E.a) \/ Save_Unlock(E.a)) /\ Consume
 
-TNext == TReset \/ TEnter \/ TLock \/ TRead \/ TApply \/ TTrunc \/ TWrite \/ TLoad \/ TSaveTrunc \/ TSaveWrite \/ TUnlock
+\* crash-aware traces (C04): the process of actor E.a is dead.  The kernel releases its flock, its goroutines are
+\* gone; the file keeps whatever it contained (possibly nothing, if the process had truncated and not yet written).
+TCrash == /\ Has("crash")
+          /\ lock' = IF lock = E.a THEN None ELSE lock
+          /\ olock' = [olock EXCEPT ![ObjOf[E.a]] = None]
+          /\ pc' = [pc EXCEPT ![E.a] = "idle"]
+          /\ UNCHANGED <<file, fver, mem, rver, kind, left, done, doneBy, torn, lost>>
+          /\ Consume
+
+TNext == TCrash \/ TReset \/ TEnter \/ TLock \/ TRead \/ TApply \/ TTrunc \/ TWrite \/ TLoad \/ TSaveTrunc \/ TSaveWrite \/ TUnlock
 
 TSpec == TInit /\ [][TNext]_tvars
 
